@@ -42,6 +42,9 @@ class Infra(Exception):
     """Infrastructure failure: exit 2, never a verdict."""
 
 
+CPU_LIMIT_USAGE = [0.0, 0.0, 0.0]       # largest (fraction of its limit, CPU seconds used, limit) of one limited call
+
+
 class ImplHang(BaseException):
     """The implementation did not return from one call within the limit (BaseException: a broad
     `except Exception` inside the implementation cannot swallow it)."""
@@ -67,14 +70,22 @@ class cpu_limit(object):
 
     def __enter__(self):
         import signal
+        import time
         self.old = signal.signal(signal.SIGVTALRM, self._fire)
+        self.t0 = time.process_time()
         signal.setitimer(signal.ITIMER_VIRTUAL, self.seconds)
         return self
 
     def __exit__(self, *a):
         import signal
+        import time
         signal.setitimer(signal.ITIMER_VIRTUAL, 0)
         signal.signal(signal.SIGVTALRM, self.old)
+        # how close the calls of this run came to their limits (goes to the evidence: a limit that ordinary calls
+        # approach would be a false alarm waiting for a loaded machine)
+        used = time.process_time() - self.t0
+        if self.seconds > 0 and used / self.seconds > CPU_LIMIT_USAGE[0]:
+            CPU_LIMIT_USAGE[0], CPU_LIMIT_USAGE[1], CPU_LIMIT_USAGE[2] = used / self.seconds, used, self.seconds
         return False
 
 
@@ -307,6 +318,8 @@ def write_evidence(ctx, violations):
     for k, v in ctx.extra.items():
         if k not in ("rule", "trusted_base", "translator_obligations"):
             cov[k] = v
+    cov["max_cpu_limit_usage"] = {"fraction": round(CPU_LIMIT_USAGE[0], 4), "cpu_s": round(CPU_LIMIT_USAGE[1], 3),
+                                  "limit_s": CPU_LIMIT_USAGE[2]}
     ev = {
         "property_id": ctx.prop,
         "tier": ctx.tier,
